@@ -651,7 +651,7 @@ pub fn run(seed: u64, tier: &str, out: &Path, extra: &[(String, String)]) -> std
     }
 
     // generated histories
-    let ncases = if thorough { 4000 } else { 320 };
+    let ncases = if thorough { 3000 } else { 220 };
     let mut mtu_quota = if thorough { 600 } else { 40 };
     for k in 0..ncases {
         let n = 1 + (rng.below(MAX_LINKS as u64) as usize);
